@@ -281,7 +281,7 @@ func lemma_block_no_leak(i *ignore, meta *ast.Meta) {
 //@ func (*Linter).lint [C11]
 //@   by-induction [C11] every lint function leaves the include depth counter as it found it; only resolveFileInclusion and lintBlockStatement (and their deferred closures) write it and both restore it
 //@   ensures [depth-kept C11] l.includeDepth == old(l.includeDepth)
-//@   only-writers [C11] F:linter.Linter.includeDepth : resolveFileInclusion resolveFileInclusion$1 lintBlockStatement lintBlockStatement$1
+//@   only-writers [C11] F:linter.Linter.includeDepth : resolveFileInclusion* lintBlockStatement*
 
 //@ func (*Linter).lintBlockStatement$2 [C11]
 //@   requires l != nil && c != nil
